@@ -564,3 +564,8 @@ def build(ck):
     build_roundtrips(ck)
     build_discipline(ck)
     build_tracesafety(ck)
+    # static metadata is compared by jit through __eq__: two configurations that differ in any setting must not compare
+    # equal (or a second operator reuses the executable compiled for the first).  Those obligations live in the C19 pack
+    # (ConfigState equality); they are re-run here by reference as obligations of this check.
+    from props import C19
+    ck.include(C19.build, 'C19', lambda fn: fn.startswith('furax._base.config.ConfigState'))
